@@ -21,7 +21,7 @@
     load_outcome_is_first_on_path reload_current_full_iff_noshadow
     reload_current_noshadow_racing_partial mtime_reuse_serves_stale
     pathload_outcome_is_first_on_path pathload_failed_load_is_noop pathload_cache_keys_unique
-    pathload_touches_only_its_key pathload_uptodate_none_always_reloads
+    pathload_touches_only_its_key pathload_uptodate_none_always_reloads inplace_rewrite_is_noticed
 -/
 import Genshi.Lemmas.Lru
 import Genshi.Lemmas.LruAbs
@@ -740,6 +740,30 @@ theorem pathload_uptodate_none_always_reloads (cfg : LoaderP.Cfg) (har : cfg.aut
 example : ((LoaderP.hrun ⟨[.fn ['/', 'a'] false true], true, 2, true⟩ ⟨exFs, 5, LoaderP.LState.init 2⟩
       [.load { filename := ['t'] }, .load { filename := ['t'] }]).2) =
     [some (.ok ⟨0, ['/', 'a', '/', 't'], ['@', 't'], 7, 0, 0⟩), some (.ok ⟨1, ['/', 'a', '/', 't'], ['@', 't'], 7, 0, 0⟩)] := by decide
+
+/-- **A file rewritten in place while it is being read** (content new / time old; open end 2):
+    `directory()` — and any callable that takes the time right after `open` — remembers the
+    modification time the file had before the rewrite, the template class then reads the new
+    content.  The load returns the new content, and with automatic reloading the entry it stores
+    is not current afterwards (the file's time has moved on; `f.mtime < w.clock`: every
+    modification gets a new time): the next load of the key is decided by the walk over the
+    search path again (`pathload_outcome_is_first_on_path` applies), so the mismatch between the
+    remembered time and the parsed content can never make the loader serve stale content. -/
+theorem inplace_rewrite_is_noticed (cfg : LoaderP.Cfg) (w : LoaderP.World) (r : LoaderP.Req)
+    (c : Nat) (b : Bool) (p : LoaderP.Str) (f : Genshi.Loader.File) (t : LoaderP.Tmpl)
+    (hopen : LoaderP.wouldOpen cfg w.fs w.ls r = some p) (hf : w.fs p = some f)
+    (hfresh : f.mtime < w.clock)
+    (hres : (LoaderP.hstepW cfg w (.loadRewrite r c b)).2 = some (.ok t)) :
+    t.content = c ∧ (LoaderP.hstepW cfg w (.loadRewrite r c b)).1.fs p = some ⟨c, b, w.clock⟩ ∧
+    LoaderP.stillCurrent (LoaderP.hstepW cfg w (.loadRewrite r c b)).1.fs
+      (LoaderP.hstepW cfg w (.loadRewrite r c b)).1.ls (LoaderP.resolve cfg.path.isEmpty r) = false :=
+  LoaderP.inplace_noticed cfg w r c b p f t hopen hf hfresh hres
+
+-- `/a/t` (content 7, time 1) is rewritten with content 70 while the first load reads it: that
+-- load returns 70 and remembers time 1; the file now has time 5, so the second load parses again
+example : ((LoaderP.hrunW ⟨[.dir ['/', 'a']], true, 2, true⟩ ⟨exFs, 5, LoaderP.LState.init 2⟩
+      [.loadRewrite { filename := ['t'] } 70 false, .plain (.load { filename := ['t'] })]).2) =
+    [some (.ok ⟨0, ['/', 'a', '/', 't'], ['t'], 70, 0, 0⟩), some (.ok ⟨1, ['/', 'a', '/', 't'], ['t'], 70, 0, 0⟩)] := by decide
 
 end LoaderPath
 
